@@ -144,7 +144,10 @@ Definition law_marker_discipline (s : st) (e : ev) (s' : st) : bool :=
           (bool_decide (scbp (srv s') c = Some true) &&
            ((bool_decide (r_q r = c) && negb (bool_decide (r_act r = AOpen) && negb (bool_decide (q_state v = SOpen)) && negb (bool_decide (q_state v = SEmpty)))) ||
             (bool_decide (r_act r = AClose) &&
-             match lst s !! c with Some co => bool_decide (q_parent co = Some (r_q r)) | None => false end)))
+             (* only a child the lister shows as NOT closed / closing is marked by its parent's close *)
+             match lst s !! c with
+             | Some co => bool_decide (q_parent co = Some (r_q r)) && negb (is_closedish (q_state co))
+             | None => false end)))
       | None => false
       end) (names s s').
 
@@ -192,7 +195,13 @@ Definition law_workqueue (s : st) (e : ev) (s' : st) (o : outcome) : bool :=
                (negb (bool_decide (r_act x = AOpen)) ||
                 match lst s !! r_q r with Some v => cbp_true (q_ann v) | None => false end ||
                 bool_decide (scbp (srv s) (r_q r) = Some true))) ||
-              match lst s !! r_q x with Some co => bool_decide (q_parent co = Some (r_q r)) | None => false end)))
+              (* a child gets a Close only if the lister shows it not closed / closing, an Open
+                 only if the lister shows its marker *)
+              match lst s !! r_q x with
+              | Some co => bool_decide (q_parent co = Some (r_q r)) &&
+                           (if bool_decide (r_act x = AClose) then negb (is_closedish (q_state co))
+                            else cbp_true (q_ann co))
+              | None => false end)))
             (emitted s s')
       end
   | ECmd q a => bool_decide (wq s' = wq s ++ [mkReq q a EvCmd 0])
@@ -273,3 +282,28 @@ Definition caught_up (s : st) : bool :=
   bool_decide (wq s = []) && forallb (fun q => bool_decide (lst s !! q = srv s !! q)) (names s s).
 Definition law_no_stuck_child (s' : st) : bool :=
   implb (caught_up s') (forallb (fun c => negb (stuck_child s' c)) (map fst (map_to_list (srv s')))).
+
+(* ---------- laws against the PodGroups that REALLY exist (the PodGroup objects, [pgl]),
+   not the controller's index; evaluated on the directed family "PodGroup events before
+   the queue is in the lister", whose histories keep the index complete (no queue
+   deletion, no PodGroup moved between queues without an event the handlers act on) ---------- *)
+Definition real_pgs (s : st) (q : positive) : list positive :=
+  map fst (filter (fun x : positive * (positive * Z) => bool_decide (fst (snd x) = q)) (map_to_list (pgl s))).
+
+(* Closed is entered only when no PodGroup of the queue exists *)
+Definition law_closed_only_when_really_empty (s : st) (e : ev) (s' : st) : bool :=
+  forallb (fun q =>
+    implb (changed s s' q && bool_decide (sst (srv s') q = Some SClosed))
+          (bool_decide (real_pgs s q = []))) (names s s').
+
+(* closing an up-to-date, not yet closed, non-root queue that still has PodGroups yields Closing *)
+Definition law_close_with_real_pgs (s : st) (e : ev) (s' : st) (o : outcome) : bool :=
+  match proc_of s e with
+  | Some (r, v) =>
+      let q := r_q r in
+      implb (bool_decide (r_act r = AClose) && bool_decide (o = OOk) && negb (bool_decide (q = root)) &&
+             negb (bool_decide (q_state v = SClosed)) && negb (bool_decide (q_state v = SInvalid)) &&
+             bool_decide (sst (lst s) q = sst (srv s) q) && negb (bool_decide (real_pgs s q = [])))
+            (bool_decide (sst (srv s') q = Some SClosing))
+  | None => true
+  end.
